@@ -396,6 +396,38 @@ def check_wrapper_consts(rep, config):
         Rr.check(v[n] == exp, 'igzip/igzip.c:%s' % n, 'is %d, RFC 1951 3.2.4 needs %d' % (v[n], exp))
 
 
+def check_rfc_copies(rep, config='default'):
+    """T-RFC-COPIES: every private copy of an RFC 1951 table, wherever it lives.  The data sections of every C and asm object of the
+    build are scanned (element widths 1, 2, 4) for windows that agree with a reference table (base lengths, base distances, extra-bit
+    counts) in all but at most 3 places; such a window IS a copy of that table and must agree everywhere."""
+    RR = rep.rule('T-RFC-COPIES', 'every copy of an RFC 1951 table found in the data of any object of the build (a window matching the base-length, base-distance or extra-bit table in >= n-3 of n '
+                  'consecutive elements of width 1, 2 or 4 bytes) matches it in all n elements: match finders, the long-match extender and both decoders derive lengths/distances from these private copies', floor=13, unit='table copies')
+    refs = {'base distances': R.DIST_BASE, 'base lengths': R.LEN_BASE, 'distance extra bits': R.DIST_EXTRA, 'length extra bits': R.LEN_EXTRA[:28]}
+    objs = [(src, Elf(o)) for src, o in sorted(cbuild.objs(config).items())] + [(un, u.elf) for un, u in sorted(asmdb.units(config).items())]
+    for name, e in objs:
+        for sh in e.sh:
+            if sh['type'] == 8 or not (sh['flags'] & 2) or (sh['flags'] & 4) or sh['size'] == 0:
+                continue
+            data = e.d[sh['off']:sh['off'] + sh['size']]
+            syms = sorted((y.value, y.name) for y in e.symlist if y.sec == sh['sname'] and y.name and y.type != 3)
+            for w in (1, 2, 4):
+                fmt = {1: 'B', 2: 'H', 4: 'I'}[w]
+                for rname, ref in refs.items():
+                    L = len(ref)
+                    if max(ref) >= 1 << (8 * w):
+                        continue
+                    for start in range(0, len(data) - L * w + 1, w):
+                        vals = struct.unpack_from('<%d%s' % (L, fmt), data, start)
+                        bad = [k for k in range(L) if vals[k] != ref[k]]
+                        if len(bad) > 3:
+                            continue
+                        near = [(v, n) for v, n in syms if v <= start]
+                        where = '%s:%s%s' % (name, near[-1][1] if near else sh['sname'], '+%d' % (start - near[-1][0]) if near and start != near[-1][0] else ('+%d' % start if not near else ''))
+                        RR.instance()
+                        RR.check(not bad, where, 'copy of the RFC 1951 %s (%d-byte elements): %s' % (rname, w, '; '.join('element %d is %d (%#x), RFC value %d (%#x)' % (k, vals[k], vals[k], ref[k], ref[k]) for k in bad)),
+                                 key='T-RFC-COPIES|%s|%s|%s' % (name, rname, w), sample='%s: %s x%d' % (where, rname, w) if not bad and 'set_long' in name or 'icf_body' in name else None)
+
+
 def main(tier):
     rep = Report('C01', tier, level='other')
     rep.undecided = UNDECIDED
@@ -407,6 +439,7 @@ def main(tier):
     rep.trusted = ['clang 14 / nasm constant evaluation', 'checker RFC 1951 reference tools/rfc1951.py']
     rep.analysed = dict(configurations=CONFIGS, units=['igzip/hufftables_c.c', 'igzip/huff_codes.c', 'igzip/rfc1951_lookup.asm', 'igzip/data_struct2.asm', 'igzip/lz0a_const.asm', 'igzip/options.asm', 'include/igzip_lib.h'])
     check_rfc_tables(rep)
+    check_rfc_copies(rep)
     for c in CONFIGS:
         lay = hufftables_layout(c)
         unpack = unpack_consts(c)
